@@ -82,7 +82,7 @@ Ltac timed_fin Hok := cbn [timed_ok timeout_of]; rewrite ?Hok; consts; try tauto
 Lemma TimedInv_step w mv : I1 w -> I2 w -> TimedInv w -> TimedInv (step w mv).
 Proof.
   intros H1 H2 (Hn0 & Hok & HL). unfold TimedInv.
-  destruct mv as [t|t|t|n|c]; cbn [step].
+  destruct mv as [t|t|t|t|n|c]; cbn [step].
   - rewrite trace_clear_mark, ps_clear_mark.
     assert (Hcm : forall w', (forall u, timed_local w' u) -> forall u, timed_local (clear_mark_on_block w w' t) u).
     { intros w' H u. unfold timed_local. rewrite tc_clear_mark, ps_clear_mark. apply H. }
@@ -165,6 +165,13 @@ Proof.
       unfold prim_timeout. rewrite Hst'. destruct dl as [d|]; [|apply HL]. destruct (dl_expired d (now (ps w))) eqn:Hexp; [|apply HL].
       wsimpl. destruct (Nat.eq_dec u t) as [->|]; upd_simpl; [|apply HL]. cbn. right. split; auto. exists d. split; auto.
       unfold dl_expired in Hexp. lia.
+  - wsimpl.
+    assert (Hnow : now (prim_timeout_steal (ps w) t) = now (ps w))
+      by (destruct (steal_shape (ps w) t) as [->|(m & rc & d & _ & _ & ->)]; reflexivity).
+    rewrite Hnow. split; [auto|split; [auto|]]. intros u. apply timed_local_frame with (w := w); auto; wsimpl; rewrite ?Hnow; try lia.
+    destruct (steal_shape (ps w) t) as [->|(m & rc & d & Hs & Hexp & ->)]; [apply HL|].
+    wsimpl. destruct (Nat.eq_dec u t) as [->|]; upd_simpl; [|apply HL]. cbn. right. split; auto. exists d. split; auto.
+    unfold dl_expired in Hexp. lia.
   - wsimpl. unfold prim_clock. wsimpl. split; [lia|split; [auto|]]. intros u. apply timed_local_frame with (w := w); auto; wsimpl; try lia.
     eapply woken_ok_mono; [|apply HL]. lia.
   - wsimpl. rewrite now_rotate. split; [auto|split; [auto|]].
